@@ -252,3 +252,188 @@ def r4(ctx, R):
         d = sp.simplify(sp.expand(d - shift))
         what = f'components {pa} of the child sum to the same expression as {pb} of the parent' + (f' (the child subtracts {sp.simplify(shift)} through its shifted implicit operator and must add it back explicitly)' if shift != 0 else '')
         R.check(d == 0, c, w, what, f'difference: {str(d)[:160]}' if d != 0 else 'equal')
+        # the operands the operators act on: state that BOTH variants prepare on self before applying an operator (boundary
+        # values embedded around the inner points) is prepared identically
+        from ..inline import facts as _facts
+
+        def prep(fn):
+            out = {}
+            for f in _facts(fn):
+                if f[0] in ('store', 'aug') and f[1].startswith('self.'):
+                    out.setdefault(re.match(r'self\.\w+', f[1]).group(0), set()).add((f[1], f[2]))
+            return out
+        pa_, pb_ = prep(ci.methods['eval_f']), prep(par[0].methods['eval_f'])
+        for attr in sorted(set(pa_) & set(pb_)):
+            R.check(pa_[attr] == pb_[attr], f'{ci.name}.eval_f :: {attr} is prepared exactly as in {par[0].name}.eval_f (same boundary / embedding values)', w, sorted(pb_[attr])[:3], sorted(pa_[attr] - pb_[attr])[:3])
+
+
+def _dict_attrs(repo, ci):
+    """attributes of ci (anywhere in its MRO) that are bound to a dict: self.X = {} / dict()"""
+    out = set()
+    for c in ci.mro:
+        if not isinstance(c, ClassInfo):
+            continue
+        for fn in c.methods.values():
+            for s in ast.walk(fn):
+                if isinstance(s, ast.Assign) and len(s.targets) == 1 and isinstance(s.targets[0], ast.Attribute) and isinstance(s.targets[0].value, ast.Name) and s.targets[0].value.id == 'self':
+                    if isinstance(s.value, ast.Dict) or (isinstance(s.value, ast.Call) and ast.unparse(s.value.func) == 'dict'):
+                        out.add(s.targets[0].attr)
+    return out
+
+
+def _cache_keys(fn, dicts):
+    """key expressions with which fn looks into / stores into a dict attribute of self"""
+    keys = []
+    for x in ast.walk(fn):
+        if isinstance(x, ast.Subscript) and isinstance(x.value, ast.Attribute) and isinstance(x.value.value, ast.Name) and x.value.value.id == 'self' and x.value.attr in dicts:
+            keys.append((x.value.attr, ast.unparse(x.slice), x.lineno))
+        if isinstance(x, ast.Compare) and len(x.ops) == 1 and isinstance(x.ops[0], (ast.In, ast.NotIn)):
+            c = x.comparators[0]
+            if isinstance(c, ast.Call) and isinstance(c.func, ast.Attribute) and c.func.attr == 'keys':
+                c = c.func.value
+            if isinstance(c, ast.Attribute) and isinstance(c.value, ast.Name) and c.value.id == 'self' and c.attr in dicts:
+                keys.append((c.attr, ast.unparse(x.left), x.lineno))
+    return keys
+
+
+_CONTROL_CACHE = "class P:\n    def __init__(self):\n        self.cached = {}\n    def solve_system(self, rhs, dt, u0, t):\n        k = round(dt, 6)\n        if k not in self.cached:\n            self.cached[k] = 1\n        return self.cached[k]\n"
+
+
+@rule('C12', 'C12.R5', 'solve_system is a function of its arguments: a cache on the problem object that a solver looks into is keyed by the EXACT argument the cached object depends on (the factor itself, not a rounded / truncated / hashed form of it - two different factors must never share one factorization)', floor=4)
+def r5(ctx, R):
+    repo = ctx.repo
+    pc = ast.parse(_CONTROL_CACHE).body[0]
+    kk = _cache_keys(pc.body[1], {'cached'})
+    R.check(len(kk) == 3 and all(k == 'k' for _, k, _ in kk), 'positive control :: a cache keyed by a derived local is recognised in the embedded example', 'sa/rules/c12.py:_CONTROL_CACHE', '3 lookups keyed by `k`', kk)
+    n = 0
+    for ci in _problems(repo):
+        dicts = None
+        for name, fn in ci.methods.items():
+            if not name.startswith('solve_system'):
+                continue
+            if dicts is None:
+                dicts = _dict_attrs(repo, ci)
+            keys = _cache_keys(fn, dicts)
+            if not keys:
+                continue
+            w = f'{ci.module.relpath}:{ci.name}.{name}'
+            R.fn(w)
+            params = {a.arg for a in fn.args.args} - {'self'}
+            for attr in sorted({a for a, _, _ in keys}):
+                n += 1
+                bad = sorted({f'line {ln}: self.{a}[{k}]' for a, k, ln in keys if a == attr and k not in params and not _evict_key(fn, k)})
+                R.check(not bad, f'{ci.name}.{name} :: the cache self.{attr} is looked up and filled with a parameter of the call as key', w, f'key in {sorted(params)}', bad)
+    if not n:
+        raise AnalysisError('C12.R5: the confirmed cache (GenericSpectralLinear.cached_factorizations) not found')
+
+
+def _evict_key(fn, k):
+    """a local that names an EXISTING key of the cache (eviction: `to_evict = list(self.cache.keys())[0]`)"""
+    for s in ast.walk(fn):
+        if isinstance(s, ast.Assign) and len(s.targets) == 1 and ast.unparse(s.targets[0]) == k and '.keys()' in ast.unparse(s.value):
+            return True
+    return False
+
+
+def _helper_roots(fn):
+    """{helper name: [set of parameters the arguments of self.<helper>(..) derive from]} - forward pass in statement order,
+    strong update for unconditional top-level assignments (so `u, t = u` makes `t` a function of the parameter u only),
+    weak update inside branches and loops (loops are processed twice)"""
+    params = [a.arg for a in fn.args.args if a.arg != 'self']
+    env = {p: {p} for p in params}
+    out = {}
+
+    def src(e):
+        r = set()
+        for x in ast.walk(e):
+            if isinstance(x, ast.Name) and x.id in env:
+                r |= env[x.id]
+        return r
+
+    def calls(e):
+        for c in ast.walk(e):
+            if isinstance(c, ast.Call) and isinstance(c.func, ast.Attribute) and isinstance(c.func.value, ast.Name) and c.func.value.id == 'self':
+                r = set()
+                for a in list(c.args) + [k.value for k in c.keywords]:
+                    r |= src(a)
+                out.setdefault(c.func.attr, []).append(r)
+
+    def visit(stmts, weak):
+        for s in stmts:
+            if isinstance(s, (ast.Assign, ast.AugAssign, ast.AnnAssign)):
+                if s.value is not None:
+                    calls(s.value)
+                    r = src(s.value)
+                else:
+                    r = set()
+                tg = s.targets if isinstance(s, ast.Assign) else [s.target]
+                for t in tg:
+                    for e in (t.elts if isinstance(t, (ast.Tuple, ast.List)) else [t]):
+                        b = e
+                        sub = False
+                        while isinstance(b, (ast.Subscript, ast.Attribute)):
+                            b = b.value
+                            sub = True
+                        if isinstance(b, ast.Name):
+                            if weak or sub or isinstance(s, ast.AugAssign):
+                                env[b.id] = env.get(b.id, set()) | r
+                            else:
+                                env[b.id] = set(r)
+            elif isinstance(s, (ast.For, ast.While)):
+                calls(s.iter if isinstance(s, ast.For) else s.test)
+                if isinstance(s, ast.For):
+                    for e in ast.walk(s.target):
+                        if isinstance(e, ast.Name):
+                            env[e.id] = env.get(e.id, set()) | src(s.iter)
+                visit(s.body, True)
+                visit(s.body, True)
+                visit(s.orelse, True)
+            elif isinstance(s, ast.If):
+                calls(s.test)
+                visit(s.body, True)
+                visit(s.orelse, True)
+            elif isinstance(s, (ast.With, ast.Try)):
+                visit(getattr(s, 'body', []), True)
+                for h in getattr(s, 'handlers', []):
+                    visit(h.body, True)
+                visit(getattr(s, 'orelse', []), True)
+                visit(getattr(s, 'finalbody', []), True)
+            elif isinstance(s, (ast.Expr, ast.Return)) and s.value is not None:
+                calls(s.value)
+            elif isinstance(s, (ast.Assert, ast.Raise)):
+                pass
+    visit(fn.body, False)
+    return params, out
+
+
+NOT_MODEL_HELPERS = {'dtype_u', 'dtype_f', 'logger', 'work_counters', 'xp', 'init'}
+
+
+@rule('C12', 'C12.R6', 'solver and right-hand side evaluate the SAME model: a model helper (self.f, self.g, ...) that both eval_f and solve_system of a class call gets the time parameter of the call in both or in neither (a solver that feeds the helper the time argument while eval_f feeds it a component of the state solves u - factor*G(u) = rhs for a G that is not eval_f)', floor=2)
+def r6(ctx, R):
+    repo = ctx.repo
+    n = 0
+    for ci in _problems(repo):
+        if 'eval_f' not in ci.methods:
+            continue
+        pe, he = _helper_roots(ci.methods['eval_f'])
+        if len(pe) < 2:
+            continue
+        for sname, sfn in ci.methods.items():
+            if not sname.startswith('solve_system'):
+                continue
+            ps, hs = _helper_roots(sfn)
+            if len(ps) < 4:
+                continue
+            te, ts = pe[1], ps[3]
+            for h in sorted((set(he) & set(hs)) - NOT_MODEL_HELPERS):
+                r = repo.resolve(ci, h)
+                if r is None:
+                    continue  # not a method (callable attribute): nothing to pair
+                n += 1
+                w = f'{ci.module.relpath}:{ci.name}.{sname}'
+                R.fn(w)
+                ue, us = any(te in x for x in he[h]), any(ts in x for x in hs[h])
+                R.check(ue == us, f'{ci.name} :: self.{h}(..) depends on the time argument in eval_f and in {sname} alike', w, f'eval_f: {"uses" if ue else "does not use"} `{te}`', f'{sname}: {"uses" if us else "does not use"} `{ts}`')
+    if n < 2:
+        raise AnalysisError(f'C12.R6: expected the Prothero-Robinson pair (scalar and autonomous), found {n} paired helper(s)')
